@@ -1696,7 +1696,8 @@ class InTablePhase(Phase):
 
     # processing methods
     def processEOF(self):
-        if self.tree.openElements[-1].name != "html":
+        node = self.tree.openElements[-1]
+        if node.name != "html" or node.namespace != self.tree.defaultNamespace:
             self.parser.parseError("eof-in-table")
         else:
             assert self.parser.innerHTML
@@ -2017,8 +2018,9 @@ class InTableBodyPhase(Phase):
 
     # helper methods
     def clearStackToTableBodyContext(self):
-        while self.tree.openElements[-1].name not in ("tbody", "tfoot",
-                                                      "thead", "html"):
+        while (self.tree.openElements[-1].name not in ("tbody", "tfoot",
+                                                       "thead", "html") or
+               self.tree.openElements[-1].namespace != self.tree.defaultNamespace):
             # self.parser.parseError("unexpected-implied-end-tag-in-table",
             #  {"name": self.tree.openElements[-1].name})
             self.tree.openElements.pop()
